@@ -116,39 +116,54 @@ theorem splitOp_total (t : Nat) : ∀ (m : Nat) (n : Int) (acc : List CigarOp), 
       · simp only [maxOpLen] at h ⊢; omega
       · simp only [maxOpLen] at h ⊢; omega
 
-theorem parseOps_total : ∀ (m : Nat) (b : Bytes) (acc : List CigarOp), b.length ≤ m →
-    (parseOps b acc).isPanic = false := by
-  intro m
-  induction m with
-  | zero =>
-    intro b acc h
-    have : b = [] := List.eq_nil_of_length_eq_zero (by omega)
-    subst this
-    unfold parseOps
-    simp
-  | succ m ih =>
-    intro b acc h
-    unfold parseOps
+theorem scanOp_spec (b : Bytes) : ∀ (fuel j : Nat), b.length ≤ fuel + j →
+    scanOp b (fuel + 1) j = ok none ∨ ∃ k, scanOp b (fuel + 1) j = ok (some k) ∧ j ≤ k ∧ k < b.length := by
+  intro fuel
+  induction fuel with
+  | zero => intro j h; unfold scanOp; exact Or.inl (by rw [if_pos (by omega)])
+  | succ fuel ih =>
+    intro j h
+    unfold scanOp
+    split
+    · exact Or.inl rfl
+    · rename_i hj
+      rw [index_of_lt _ b j (by omega)]
+      simp only
+      split
+      · rcases ih (j + 1) (by omega) with h1 | ⟨k, h1, h2, h3⟩
+        · exact Or.inl h1
+        · exact Or.inr ⟨k, h1, by omega, h3⟩
+      · exact Or.inr ⟨j, rfl, Nat.le_refl _, by omega⟩
+
+theorem parseOpsFrom_total (b : Bytes) : ∀ (fuel i : Nat) (acc : List CigarOp), b.length ≤ fuel + i →
+    (parseOpsFrom b (fuel + 1) i acc).isPanic = false := by
+  intro fuel
+  induction fuel with
+  | zero => intro i acc h; unfold parseOpsFrom; rw [if_pos (by omega)]; rfl
+  | succ fuel ih =>
+    intro i acc h
+    unfold parseOpsFrom
     split
     · rfl
-    · split
-      · rfl
-      · rename_i c rest hr
-        have hlen : rest.length ≤ m := by
-          have h1 := length_dropWhile_le isDigit b
-          rw [hr] at h1
-          simp only [List.length_cons] at h1
-          omega
-        rcases atoi_spec (b.takeWhile isDigit) with he | ⟨n, hn, hn0⟩
+    · rename_i hi
+      rcases scanOp_spec b b.length i (by omega) with h1 | ⟨j, h1, h2, h3⟩
+      · rw [h1]; rfl
+      · rw [h1]
+        simp only
+        rw [slice_of_le _ b i j h2 (by omega)]
+        simp only
+        rcases atoi_spec ((b.take j).drop i) with he | ⟨n, hn, hn0⟩
         · rw [he]; rfl
         · rw [hn]
           simp only
+          rw [index_of_lt _ b j h3]
+          simp only
           split
           · rfl
-          · obtain ⟨r, hr'⟩ := splitOp_total (opLookup c) n.toNat n acc (Nat.le_refl _) hn0
-            rw [hr']
+          · obtain ⟨r, hr⟩ := splitOp_total (opLookup (b[j]'h3)) n.toNat n acc (Nat.le_refl _) hn0
+            rw [hr]
             simp only
-            exact ih rest r hlen
+            exact ih (j + 1) r (by omega)
 
 /-! ### binding, aux accessors on well-formed fields -/
 
@@ -268,8 +283,12 @@ theorem auxSweep_wf (a : Bytes) (h : wfAux a = true) : auxSweep a = ok () := by
       · rename_i e
         rw [bind_ok _ _ _ (index_of_lt _ a 3 (h3 e)), hv66 e]; rfl
       · rfl
+    have hmat : auxMatches a = ok () := by
+      unfold auxMatches
+      rw [bind_ok _ _ _ (index_of_lt _ a 1 (by omega)), bind_ok _ _ _ (index_of_lt _ a 0 (by omega))]
+      rfl
     unfold auxSweep
-    rw [bind_ok _ _ _ htag, bind_ok _ _ _ hty, bind_ok _ _ _ hv, bind_ok _ _ _ hstr, hsam]
+    rw [bind_ok _ _ _ hmat, bind_ok _ _ _ htag, bind_ok _ _ _ hty, bind_ok _ _ _ hv, bind_ok _ _ _ hstr, hsam]
 
 
 /-! ### sam.ParseAux -/
@@ -690,6 +709,32 @@ theorem opString_total (t : Nat) : ∃ c, opString t = ok c := by
   refine ⟨_, index_of_lt _ _ _ ?_⟩
   unfold lastCigar
   split <;> omega
+
+/-- the explicit `Lengths` loop computes what the model of C16 computes -/
+theorem lengthsGo_eq (c : List CigarOp) : ∀ ref read,
+    Hts.Model.Coord.lengthsLoop ref read c = (match lengthsGo ref read c with | ok v => some v | _ => none) ∧
+    (lengthsGo ref read c).isPanic = false := by
+  induction c with
+  | nil => intro ref read; exact ⟨rfl, rfl⟩
+  | cons co rest ih =>
+    intro ref read
+    unfold lengthsGo Hts.Model.Coord.lengthsLoop
+    rw [consumesGo_eq]
+    simp only [Hts.Model.Coord.consumes, Hts.Model.Coord.typB]
+    exact ih _ _
+
+/-- the explicit `End` loop computes what the model of C16 computes -/
+theorem endGo_eq (c : List CigarOp) : ∀ pos e,
+    Hts.Model.Coord.endLoop pos e c = (match endGo pos e c with | ok v => some v | _ => none) ∧
+    (endGo pos e c).isPanic = false := by
+  induction c with
+  | nil => intro pos e; exact ⟨rfl, rfl⟩
+  | cons co rest ih =>
+    intro pos e
+    unfold endGo Hts.Model.Coord.endLoop
+    rw [consumesGo_eq]
+    simp only [Hts.Model.Coord.consumes]
+    exact ih _ _
 
 theorem clipCheck_total (c : List CigarOp) (i : Nat) (h0 : i ≠ 0) (h1 : i + 1 < c.length) :
     (clipCheck c i).isPanic = false := by
